@@ -400,6 +400,16 @@ def update(m, v): m.update(v)
 def pop(m, k): return m.pop(k)
 def clear(x): x.clear()
 def aslist(r): return [x for x in r]
+def iteridx(r, i): return [x for x in r][i]
+def listidx(r, i): return list(r)[i]
+def foridx(r, i):
+    n = len(r)
+    if i < 0: i += n
+    k = 0
+    for x in r:
+        if k == i: return x
+        k += 1
+    return [][i]
 def length(x): return len(x)
 def set_field(m, f, v): proto.set_field(m, f, v)
 def get_field(m, f): return proto.get_field(m, f)
